@@ -265,7 +265,7 @@ prop("C07", level="model_checking",
 prop("C08", level="model_checking",
      technique="exhaustive exploration of the reference subset automaton for top-priority ties, compared with the derive's Disambiguation errors over all enumerated pattern pairs/triples x priority schemes",
      text="conflict(reference) <=> Disambiguation(derive), with the same set of named patterns, on every definition of the family that is not rejected for another reason.",
-     note="Same trusted base as C01. Domain: definitions not already rejected for nullable/start-look-behind.", design_ref="5 C08", steps=[step_selfcheck, step_layer1], assumptions=L1_ASSUME)
+     note="Same trusted base as C01. Domain: definitions not already rejected for nullable/start-look-behind.", design_ref="5 C08", steps=[step_selfcheck, step_layer1, step_vgraph("c08")], assumptions=L1_ASSUME)
 prop("C09", level="model_checking",
      technique="per enumerated pattern: captured leaf priority vs the documented rule computed on an independently built HIR, cross-checked by 0/1-BFS shortest match on the reference automaton; token-vs-regex consequence by running the captured graph",
      text="For every pattern of the family the priority logos computed equals the documented rule; literal tokens are never beaten on their own text by a default-priority regex.",
@@ -325,7 +325,7 @@ prop("C20", level="model_checking", engine="vgraph+vrt",
      technique="structural invariants of every captured graph (determinism, one byte per edge) + exhaustive read-trace monitoring of compiled lexers (read-trace hook) over bounded-exhaustive and adversarial inputs",
      text="Every graph edge consumes exactly one byte and states are deterministic; on every replayed input (both back ends, trace build) read offsets never decrease within an attempt, reads are bounded by 2 x bytes examined + 6, and each attempt starts at the end of the previous item or skip.",
      note="The read-trace hook records every LexerInternal::read, next and trivia call (cfg feature verif_hooks).", design_ref="5 C20",
-     steps=[step_selfcheck, step_layer1, step_layer2(["t-dev"], ["t-dev"])], assumptions=L2_ASSUME)
+     steps=[step_selfcheck, step_layer1, step_layer2(["t-dev"], ["t-dev"]), step_vderive("c20", ["tc-u-dev-t", "sm-u-dev-t"], ["tc-u-dev-t", "sm-u-dev-t", "tc-f-dev-t", "sm-f-dev-t"])], assumptions=L2_ASSUME)
 
 prop("C13", level="exploration", engine="vderive",
      technique="exhaustive enumeration of all inputs up to a length bound through enums compiled with the REAL derive, carrying callbacks of every documented return type; item streams, spans and callback invocation logs compared with a hand-written reference + the documented table; tail-call vs state-machine transcripts compared by digest",
@@ -453,7 +453,7 @@ def replay_once(path):
         if any("not in the compiled corpus" in n for n in rep.get("notes", [])):
             rep = rerun_and_filter(rec)
     elif kind == "vderive":
-        rep = H.run_vderive("tc-u-dev", "replay", rec["property"], "quick", out, extra=["--file", path])
+        rep = H.run_vderive("tc-u-dev-t" if rec["property"] == "C20" else "tc-u-dev", "replay", rec["property"], "quick", out, extra=["--file", path])
     else:
         rep = rerun_and_filter(rec)
     # tags only: a defect that itself depends on hash order may show a different detail text each time
